@@ -25,10 +25,12 @@ EXHAUSTIVE = {
     "thorough": "all 10^6 all-digit SEDOL bases; all 10^8 all-digit CUSIP bases; all 676 two-letter ISIN prefixes x one 10^4 block",
 }
 MIN_COUNTERS = {
-    "quick": {"sedol_digit_bases": 10**6, "cusip_digit_bases": 10**6, "isin_prefixes_unknown": 600},
-    "thorough": {"sedol_digit_bases": 10**6, "cusip_digit_bases": 10**8, "isin_prefixes_unknown": 600},
+    "quick": {"sedol_digit_bases": 10**6, "cusip_digit_bases": 10**6, "isin_prefixes_unknown": 600, "padded_ids": 50000},
+    "thorough": {"sedol_digit_bases": 10**6, "cusip_digit_bases": 10**8, "isin_prefixes_unknown": 600, "padded_ids": 50000},
 }
 CHECKCHARS = "0123456789ABCDEFGHIJKLMNOPQRSTUVWXYZ"
+# one extra character that validators built on regexes or int()/strip() tend to swallow
+PADDING = ["\n", "\r", " ", "\t", "\x00", "\x0b", "\x0c", "\x1c", "\x85", "\u00a0", "\u2028", "_", "+", "-"]
 
 
 def shards(tier):
@@ -221,8 +223,10 @@ class Mon:
         for _ in range(300):
             b = "".join(rng.choice(ref.ALNUM) for _ in range(8))
             good = b + ref.cusip_check(b)
-            for t in (good + good[-1], good[:-1], "0" + good, good + "0"):
+            pad = rng.choice(PADDING)
+            for t in (good + good[-1], good[:-1], "0" + good, good + "0", good + pad, pad + good, good[:4] + pad + good[4:]):
                 ctx.ev()
+                ctx.count("padded_ids")
                 try:
                     r = u.validate_cusip(t)
                 except Exception:
@@ -231,8 +235,9 @@ class Mon:
                     ctx.violation("cusip/wrong-length-accepted", f"validate_cusip({t!r}) is True", {"kind": "len", "name": "cusip", "text": t})
             b = rng.choice(sorted(self.known)) + "".join(rng.choice(ref.ALNUM) for _ in range(9))
             good = b + ref.isin_check(b)
-            for t in (good + good[-1], good[:-1], good + "0", good[:2] + "0" + good[2:]):
+            for t in (good + good[-1], good[:-1], good + "0", good[:2] + "0" + good[2:], good + pad, pad + good, good[:2] + pad + good[2:]):
                 ctx.ev()
+                ctx.count("padded_ids")
                 try:
                     r = u.validate_isin(t)
                 except Exception:
